@@ -1685,6 +1685,23 @@ func (self *ReplicationAckDB) ProcessLeaderPushLock(glockIndex uint16, aofLock *
 	return nil
 }
 
+func (self *ReplicationAckDB) ProcessLeaderPushLockFailed(glockIndex uint16, aofLock *AofLock) {
+	lock := aofLock.lock
+	if lock == nil {
+		return
+	}
+	self.ackGlocks[glockIndex].Lock()
+	if lock.command != nil {
+		if aofId, ok := self.commandAofs[glockIndex][lock.command.RequestId]; ok {
+			delete(self.commandAofs[glockIndex], lock.command.RequestId)
+			delete(self.aofLocks[glockIndex], aofId)
+		}
+	}
+	self.ackGlocks[glockIndex].Unlock()
+	lockManager := lock.manager
+	lockManager.lockDb.DoAckLock(lock, false)
+}
+
 func (self *ReplicationAckDB) ProcessLeaderPushUnLock(glockIndex uint16, aofLock *AofLock) error {
 	lock := aofLock.lock
 	if lock == nil {
